@@ -243,7 +243,7 @@ func (g *gen) genCert() cfgCase {
 		if r.Chance(40) {
 			subs = append(subs, "extended-key-usage co "+Pick(r, []string{"clientauth", "1.3.6.1.4.1.311.20.2.2"}))
 		}
-		b.add(fmt.Sprintf("crypto ca certificate map %s 10", cm), subs...)
+		b.add(fmt.Sprintf("crypto ca certificate map %s %d", cm, 10*k), subs...)
 		tg := fmt.Sprintf("VPN-tunnel-%d", k)
 		if k > 1 && r.Chance(15) {
 			tg = "VPN-tunnel-1" // two certificate maps lead to one tunnel-group
@@ -390,13 +390,32 @@ func (g *gen) genCert() cfgCase {
 				say("tunnel-group-map-rule-missing")
 			}
 		case k < 36:
-			if l := rules(); len(l) > 0 {
-				x := Pick(r, l)
-				if w := x.words(); len(w) == 4 {
-					w[2] = fmt.Sprint(5 + r.Intn(40))
+			// another index on the device: the entry of the certificate map and every rule that names it
+			if o, ok := g.pickRef(a.kindObjects("certmap")); ok {
+				ns := fmt.Sprint(5 + r.Intn(40))
+				for _, x := range a.blocksOf(o) {
+					w := x.words()
+					w[5] = ns
 					x.Head = strings.Join(w, " ")
-					say("tunnel-group-map-other-index")
 				}
+				for _, x := range a.Blocks {
+					w := x.words()
+					kk, _ := headKind(w)
+					if kk == "tgmap" && len(w) == 4 && w[1] == o.name {
+						w[2] = ns
+						x.Head = strings.Join(w, " ")
+					}
+					if kk == "webvpn" {
+						for j, sx := range x.Subs {
+							sw := strings.Fields(sx)
+							if len(sw) == 4 && sw[0] == "certificate-group-map" && sw[1] == o.name {
+								sw[2] = ns
+								x.Subs[j] = strings.Join(sw, " ")
+							}
+						}
+					}
+				}
+				say("certificate-map-other-index")
 			}
 		case k < 46:
 			// a rule points to another tunnel-group of the device
@@ -417,10 +436,10 @@ func (g *gen) genCert() cfgCase {
 				a.add("crypto ca certificate map "+cm+" 10", fmt.Sprintf("subject-name attr ea co @gone%d.example.com", n))
 				a.add("tunnel-group " + tg + " type remote-access")
 				if r.Chance(60) {
-					a.add("tunnel-group-map " + cm + " 77 " + tg)
+					a.add("tunnel-group-map " + cm + " 10 " + tg)
 				}
 				if wb := webBlock(); wb != nil && r.Chance(50) {
-					wb.Subs = append(wb.Subs, "certificate-group-map "+cm+" 78 "+tg)
+					wb.Subs = append(wb.Subs, "certificate-group-map "+cm+" 10 "+tg)
 				}
 				say("extra-rule-with-own-objects")
 			}
@@ -438,10 +457,7 @@ func (g *gen) genCert() cfgCase {
 			if wb := webBlock(); wb != nil && cgmRule(wb) >= 0 {
 				j := cgmRule(wb)
 				sw := strings.Fields(wb.Subs[j])
-				if r.Chance(50) {
-					sw[2] = fmt.Sprint(5 + r.Intn(40))
-					say("certificate-group-map-other-index")
-				} else if o, ok := g.pickRef(a.kindObjects("tg")); ok && !isIPName(o.name) {
+				if o, ok := g.pickRef(a.kindObjects("tg")); ok && !isIPName(o.name) {
 					sw[3] = o.name
 					say("certificate-group-map-points-to-other-tunnel-group")
 				}
